@@ -201,7 +201,7 @@ fn check(ctx: &Ctx, items: &[Item], slice: Option<usize>) -> Outcome {
     let mut ri_idx = 0usize;
     let mut failures_seen = 0u32;
     let mut later_success_after_failure = false;
-    let mut traces: Vec<(usize, Trace)> = vec![];
+    let mut traces: Vec<(usize, Option<Trace>)> = vec![];
     for (i, it) in items.iter().enumerate() {
         let judged = matches!(it, Item::Plain(_) | Item::Failing { .. });
         if judged && ri_idx >= ri.comparable {
@@ -229,6 +229,11 @@ fn check(ctx: &Ctx, items: &[Item], slice: Option<usize>) -> Outcome {
                     ctx.class("bad-form-accepted");
                 } else {
                     failures_seen += 1;
+                    // a read or compile error: whatever last_stacktrace() says now must be what
+                    // it says in a VM that only performed the completed effects
+                    if traces.iter().filter(|(p, _)| !matches!(items[*p], Item::Failing { .. })).count() < 2 {
+                        traces.push((i, trace_of(&s)));
+                    }
                 }
             }
             _ => {
@@ -258,8 +263,8 @@ fn check(ctx: &Ctx, items: &[Item], slice: Option<usize>) -> Outcome {
                     }
                     (RiOutcome::Fail(_), FormResult::Failed(_)) => {
                         failures_seen += 1;
-                        if let Some(t) = trace_of(&s) {
-                            traces.push((i, t));
+                        if matches!(it, Item::Failing { .. }) && traces.iter().filter(|(p, _)| matches!(items[*p], Item::Failing { .. })).count() < 3 {
+                            traces.push((i, trace_of(&s)));
                         }
                     }
                     (RiOutcome::Value(e), FormResult::Failed(err)) => {
@@ -288,7 +293,7 @@ fn check(ctx: &Ctx, items: &[Item], slice: Option<usize>) -> Outcome {
     let _ = fresh_cap;
     // stack traces: each failing form's trace must equal the trace in a fresh VM that
     // performed only the completed effects of the earlier failing forms
-    for (pos, trace) in traces.iter().take(3) {
+    for (pos, trace) in traces.iter() {
         let mut f = SutSession::new(RunOpts::default());
         let mut ok = true;
         for it in items[..*pos].iter() {
@@ -306,19 +311,20 @@ fn check(ctx: &Ctx, items: &[Item], slice: Option<usize>) -> Outcome {
             continue;
         }
         let _ = eval_item(&mut f, &items[*pos]);
-        if let Some(t2) = trace_of(&f) {
-            if &t2 != trace {
-                return Outcome::fail(
-                    "C07|stack-trace-differs",
-                    format!(
-                        "trace of failing item #{} has {} frames after the real history but {} frames in a VM that only performed the completed effects",
-                        pos,
-                        trace.len(),
-                        t2.len()
-                    ),
-                    rendered,
-                );
-            }
+        let t2 = trace_of(&f);
+        if &t2 != trace {
+            let frames = |t: &Option<Trace>| t.as_ref().map(|t| format!("{} frames", t.len())).unwrap_or_else(|| "no trace".to_string());
+            let sig = if matches!(items[*pos], Item::Failing { .. }) { "C07|stack-trace-differs" } else { "C07|stack-trace-after-read-or-compile-error" };
+            return Outcome::fail(
+                sig,
+                format!(
+                    "last_stacktrace() after failing item #{}: {} after the real history but {} in a VM that only performed the completed effects",
+                    pos,
+                    frames(trace),
+                    frames(&t2)
+                ),
+                rendered,
+            );
         }
     }
     if ctx.counting() {
@@ -458,6 +464,23 @@ impl Prop for C07 {
                     Some((sig, detail, p)) => Outcome::fail(sig, detail, p),
                     None => Outcome::Pass,
                 }
+            }
+            // a hand-written session: [{"plain"|"bad-syntax"|"bad-text": text} | {"failing": text, "effects_only": text}]
+            "items" => {
+                let mut items: Vec<Item> = read_all(SETUP).unwrap().into_iter().map(Item::Plain).collect();
+                for it in payload["items"].as_array().cloned().unwrap_or_default() {
+                    let get = |k: &str| it[k].as_str().and_then(|t| read(t).ok());
+                    if let Some(f) = get("plain") {
+                        items.push(Item::Plain(f));
+                    } else if let Some(f) = get("bad-syntax") {
+                        items.push(Item::BadSyntax(f));
+                    } else if let Some(t) = it["bad-text"].as_str() {
+                        items.push(Item::BadText(t.to_string()));
+                    } else if let (Some(form), Some(effects_only)) = (get("failing"), get("effects_only")) {
+                        items.push(Item::Failing { form, effects_only, kind: "replayed", depth: 0, in_callcc: false });
+                    }
+                }
+                check(ctx, &items, payload["slice"].as_u64().map(|b| b as usize))
             }
             _ => case(ctx, &unhex(payload["bytes"].as_str().unwrap_or(""))),
         }
